@@ -166,7 +166,7 @@ theorem onlyLoop_eq (ofType : Bool) (d : Str) :
       exact ih c hc
 
 theorem emptyLoop_iff (cs : List Node) :
-    emptyLoop cs = true ↔ ∀ c ∈ cs, c.kind ≠ .elem ∧ (c.kind = .text → isBlank c.data = true) := by
+    emptyLoop cs = true ↔ ∀ c ∈ cs, c.kind ≠ .elem ∧ (c.kind = .text → isDocBlank c.data = true) := by
   induction cs with
   | nil => simp [emptyLoop]
   | cons c cs ih =>
